@@ -14,6 +14,7 @@ with values as integers or `n` (NaN).
   expand DS                     -> ok | Pvals;Svals …  | index-error
   concat k DS…                  -> ok | nP nS n | pairs | P rows | S rows
   concatalias m DS… k ids…      -> same
+  outnames u1 u2 …              -> suffixes of the statistics variables, in order
   concatmixed k DS… f1 … fk     -> same (fi = 1: member i has the opposite group order)
   compact nP0 nS0 n p s …       -> ok | uP | uS | new pairs   | empty | index-error
 Anything else -> bad-op.
@@ -136,6 +137,7 @@ def step (line : String) : String :=
       | some (ds, []) => showDS (concat ds)
       | _ => "bad-op"
     | none => "bad-op"
+  | "outnames" :: rest => " ".intercalate (outNames rest)
   | "concatmixed" :: rest =>
     match pNat rest with
     | some (k, ts) =>
